@@ -84,13 +84,19 @@ func (fs DirFs) Delete(dir, fname string) {
 }
 
 func (fs DirFs) AtomicCreate(dir, fname string, data []byte) {
-	tmpFile := fname + ".tmp"
+	// the temp names must fit NAME_MAX for every name the other operations
+	// accept; O_EXCL keeps names with a common prefix apart
+	base := fname
+	if len(base) > 255-len(".4294967295.tmp") {
+		base = base[:255-len(".4294967295.tmp")]
+	}
+	tmpFile := base + ".tmp"
 	fd, err := unix.Openat(fs.rootFd, tmpFile,
 		unix.O_CREAT|unix.O_EXCL|unix.O_WRONLY, 0644)
 	// the temp file must be ours alone: skip leftovers of interrupted calls
 	// and the temp files of concurrent callers
 	for i := 0; err == unix.EEXIST; i++ {
-		tmpFile = fmt.Sprintf("%s.%d.tmp", fname, i)
+		tmpFile = fmt.Sprintf("%s.%d.tmp", base, i)
 		fd, err = unix.Openat(fs.rootFd, tmpFile,
 			unix.O_CREAT|unix.O_EXCL|unix.O_WRONLY, 0644)
 	}
